@@ -943,9 +943,17 @@ func splitInlineBox(context *layoutContext, box_ Box, positionX, maxX, bottomSpa
 					// ends where its last kept child ends
 					preservedLineBreak = false
 					positionX = initialPositionX
-					if l := len(children); l != 0 {
-						last := children[l-1].box.Box()
-						positionX = last.PositionX + last.MarginWidth()
+					for l := len(children) - 1; l >= 0; l-- {
+						// skip placeholders (nil boxes) and boxes which are not laid out in the line
+						last := children[l].box
+						if last == nil || isNilBox(last) || !last.Box().IsInNormalFlow() {
+							continue
+						}
+						if lastBox := last.Box(); pr.Is(lastBox.Width) && pr.Is(lastBox.MarginLeft) && pr.Is(lastBox.MarginRight) &&
+							pr.Is(lastBox.PaddingLeft) && pr.Is(lastBox.PaddingRight) {
+							positionX = lastBox.PositionX + lastBox.MarginWidth()
+							break
+						}
 					}
 					break
 				}
@@ -1543,4 +1551,16 @@ func canBreakInside(ctx *layoutContext, box Box) pr.MaybeBool {
 		return pr.False
 	}
 	return pr.False
+}
+
+// isNilBox returns true for a typed nil box stored in the Box interface
+func isNilBox(box Box) bool {
+	switch b := box.(type) {
+	case *bo.TextBox:
+		return b == nil
+	case *bo.InlineBox:
+		return b == nil
+	default:
+		return false
+	}
 }
